@@ -45,6 +45,7 @@ GLOBAL_REWRITES = [
     ('R5d', r'\bCoreError::(\w+)\b', r'E::Other', 'anchor error value: payload dropped'),
     ('R1c', r'gmsol_model::utils::apply_factor::<_,\s*\{\s*constants::MARKET_DECIMALS\s*\}>', 'apply_factor_p', 'monomorphisation at the program instance (u128, 20); primitive-typed glue'),
     ('R1d', r'\bapply_factor::<_,\s*\{\s*constants::MARKET_DECIMALS\s*\}>', 'apply_factor_p', 'monomorphisation at the program instance (u128, 20)'),
+    ('R4d', r'\bgmsol_store::constants::MARKET_USD_UNIT\b', 'MARKET_USD_UNIT', 'MARKET_USD_UNIT = 10^20 referenced from another program crate (checked against /repo constant each run)'),
     ('R4c', r'\bconstants::MARKET_USD_UNIT\b', 'MARKET_USD_UNIT', 'MARKET_USD_UNIT = 10^20 (checked against /repo constant each run)'),
     ('R2a', r'\bSelf::Signed\b', 'S', 'monomorphisation: signed counterpart'),
     ('R2b', r'\bT::Signed\b', 'S', 'monomorphisation: signed counterpart'),
